@@ -118,6 +118,13 @@ func leaf(rng *rand.Rand, n gmap) interface{} {
 	case "i":
 		return intAs(rng, num(n["i"]))
 	case "s":
+		if ci, ok := n["s"].([]int); ok {
+			b := make([]byte, len(ci))
+			for i, c := range ci {
+				b[i] = byte(c)
+			}
+			return string(b)
+		}
 		cs := n["s"].([]interface{})
 		b := make([]byte, len(cs))
 		for i, c := range cs {
@@ -251,11 +258,14 @@ func (m *mapRun) obs() []interface{} {
 
 // do performs one step on the real maps; a panic inside tex is reported as a `panic` event.
 func (m *mapRun) do(a mact) (r interface{}, pan string) {
-	defer func() {
-		if e := recover(); e != nil {
-			pan = fmt.Sprint(e)
-		}
-	}()
+	guard := func(f func()) { // only calls into tex are guarded: a harness bug must stay a crash
+		defer func() {
+			if e := recover(); e != nil {
+				pan = fmt.Sprint(e)
+			}
+		}()
+		f()
+	}
 	switch a.Op {
 	case "set", "mkmap", "del":
 		if len(a.P) == 0 && m.hs[a.H] == nil {
@@ -281,14 +291,15 @@ func (m *mapRun) do(a mact) (r interface{}, pan string) {
 		}
 		return 0, ""
 	case "clone":
-		m.hs[a.To] = tex.MapClone(m.hs[a.H])
-		return 0, ""
+		guard(func() { m.hs[a.To] = tex.MapClone(m.hs[a.H]) })
+		return 0, pan
 	case "merge":
-		m.hs[a.To] = tex.MapMerge(m.hs[a.B], m.hs[a.D])
-		return 0, ""
+		guard(func() { m.hs[a.To] = tex.MapMerge(m.hs[a.B], m.hs[a.D]) })
+		return 0, pan
 	case "get":
 		t, _ := m.walk(a.H, a.P) // invalid path: the getter sees a nil map
-		return getter(t, a.K, a.G), ""
+		guard(func() { r = getter(t, a.K, a.G) })
+		return r, pan
 	}
 	tr.Fatal("unknown map op %q", a.Op)
 	return nil, ""
